@@ -65,6 +65,9 @@ type poller struct {
 	// entails writing a single byte to the write end of the wakeupPipe.
 	posts []func()
 
+	// running holds the handlers being executed by dispatch. Only the poller's goroutine touches its contents.
+	running []func()
+
 	// lck synchronizes access to the posts slice.
 	// This is needed because multiple goroutines can call ioc.Post(...)
 	// on the same IO object.
@@ -217,13 +220,17 @@ func (p *poller) dispatch() {
 		}
 	}
 
+	// Handlers run without the lock held: a handler may call Post itself, and other goroutines must be able to post
+	// while handlers execute. The queue is swapped with a spare slice so that nothing is allocated.
 	p.lck.Lock()
-	for _, handler := range p.posts {
+	p.posts, p.running = p.running[:0], p.posts
+	p.lck.Unlock()
+
+	for i, handler := range p.running {
 		handler()
+		p.running[i] = nil
 		p.pending--
 	}
-	p.posts = p.posts[:0]
-	p.lck.Unlock()
 }
 
 func (p *poller) SetRead(slot *Slot) error {
